@@ -309,5 +309,5 @@ func genHistory(t *rapid.T) Case {
 
 // TestHistories: long random histories with a bounded (evicting) cache, POST and GET.
 func TestHistories(t *testing.T) {
-	vfrun.Run(t, vfrun.Prop[Case]{Property: "C15", Name: "TestHistories", Gen: genHistory, Check: check}, vfrun.N(3000, 100000))
+	vfrun.Run(t, vfrun.Prop[Case]{Property: "C15", Name: "TestHistories", Gen: genHistory, Check: check}, vfrun.N(3000, 800000))
 }
